@@ -52,7 +52,8 @@ Adv == e' = e + 1 /\ UNCHANGED <<c, vars>>
 
 TCreate ==
   /\ HasEv("create") /\ e = 1 /\ KnownType /\ Case.kind # "offer"
-  /\ Ev.h = 0 /\ Ev.type = In.type /\ Ev.role = Ent.role /\ Case.kind = Ent.role
+  /\ Ev.h = 0 /\ Ev.type = In.type /\ Case.kind = Ent.role
+  /\ Ev.role = (IF Ent.role = "sweep" THEN "plain" ELSE Ent.role)
   /\ In.var \in 0..(Ent.nvar - 1)
   /\ In.wide \in (IF Ent.wide THEN {0, 1, 2} ELSE {0})
   /\ In.ft \in (IF Ent.gen THEN {"f32", "f64"} ELSE {"f64"}) /\ Ev.ft = In.ft
@@ -138,9 +139,17 @@ AcceptOffer ==
   /\ Ok(Case.id)
   /\ e' = e + 1 /\ UNCHANGED <<c, vars, hs, o, eqs, refused, used>>
 
+\* structural sweep of an error enum: the deserialiser knows no variant with this index -- nothing to persist
+TAbsent ==
+  /\ HasEv("absent") /\ Ent.role = "sweep" /\ NH = 1 /\ e = 2 /\ e = Len(Case.ev)
+  /\ Ev.index = In.var
+  /\ refused' = TRUE
+  /\ Adv /\ UNCHANGED <<hs, o, eqs, used>>
+
 \* what a complete history owes
 Complete ==
   IF Ent.role = "skipped" THEN refused /\ KeysOf(o, 0) # {}
+  ELSE IF Ent.role = "sweep" /\ refused THEN KeysOf(o, 0) = {}
   ELSE /\ NH = Len(In.fmts) + 1
        /\ Cardinality(KeysOf(o, 0)) >= MinKeys(Ent.role)
        /\ Ent.role = "params" => {"validate", "refit"} \subseteq KeysOf(o, 0)
@@ -166,10 +175,10 @@ Why ==
 
 Stuck ==
   /\ e <= Len(Case.ev) + 1
-  /\ ~(ENABLED TCreate \/ ENABLED TObs \/ ENABLED TRoundTrip \/ ENABLED TRefuse \/ ENABLED TEq \/ ENABLED TRearm \/ AcceptGuard
+  /\ ~(ENABLED TCreate \/ ENABLED TObs \/ ENABLED TRoundTrip \/ ENABLED TRefuse \/ ENABLED TEq \/ ENABLED TRearm \/ ENABLED TAbsent \/ AcceptGuard
        \/ ENABLED TOffer \/ (Case.kind = "offer" /\ e = Len(Case.ev) + 1 /\ Len(Case.ev) >= 1))
   /\ Fail(Case.id, Why)
   /\ e' = Len(Case.ev) + 2 /\ UNCHANGED <<c, vars, hs, o, eqs, refused, used>>
 
-TraceNext == TCreate \/ TObs \/ TRoundTrip \/ TRefuse \/ TEq \/ TRearm \/ Accept \/ TOffer \/ AcceptOffer \/ Stuck
+TraceNext == TCreate \/ TAbsent \/ TObs \/ TRoundTrip \/ TRefuse \/ TEq \/ TRearm \/ Accept \/ TOffer \/ AcceptOffer \/ Stuck
 =============================================================================
